@@ -13,7 +13,7 @@ package zjson
 //@ func Decode$1()
 //@   implements functype DpFactory
 //@   modifies srctag
-//@   ensures[C15] undecodable_is_one_invalid_json_issue: result1 != nil ==> result0 == nil && isnew(result1) && result1.Code == "invalid_json" && result1.Err != nil
+//@   ensures[C15,C14,C07] undecodable_is_one_invalid_json_issue: result1 != nil ==> result0 == nil && isnew(result1) && result1.Code == "invalid_json" && result1.Err != nil
 //@   ensures[C15,C14] every_undecodable_document_is_reported: json.jsonerr(r) != nil || json.jsonobj(r) == nil ==> result1 != nil
 //@   ensures[C15,C14] a_decoded_object_is_not_an_issue: json.jsonerr(r) == nil && json.jsonobj(r) != nil ==> result1 == nil
 //@   ensures[C15,C14] object_reads_json_tags: result1 == nil && result0 != nil ==> p.dptag(result0) == &jsonTag
